@@ -76,6 +76,7 @@ SHAPES = {
     'sh16': {'defines': ['H_BUFSZ=16', 'H_SHARED=1'], 'text': 'shared working buffer of 16 bytes (halves 8/8)', 'unwind': 18},
     'sh32': {'defines': ['H_BUFSZ=32', 'H_SHARED=1'], 'text': 'shared working buffer of 32 bytes (halves 16/16)', 'unwind': 34},
     'sep40': {'defines': ['H_BUFSZ=40', 'H_SHARED=0', 'H_UBUFSZ=6'], 'text': 'command buffer 40 bytes, separate event buffer 6 bytes', 'unwind': 42},
+    'sh17': {'defines': ['H_BUFSZ=17', 'H_SHARED=1'], 'text': 'shared working buffer of 17 bytes (odd: halves 8/8, one spare byte)', 'unwind': 19},
     'sep8': {'defines': ['H_BUFSZ=8', 'H_SHARED=0', 'H_UBUFSZ=6'], 'text': 'command buffer 8 bytes, separate event buffer 6 bytes', 'unwind': 14},
 }
 SHAPE_TEXT = '; pool of 3 commands in 1-2 groups, <= 2 variables each (all types/access modes, data_size 1..4), names <= 2 bytes over all byte values, every flag and handler subset, event queue capacity %d; all object scalars symbolic under Inv'
@@ -107,6 +108,9 @@ API_FUNCS = [
     ('cat_trigger_unsolicited_test', 'cat_trigger_unsolicited_test(&h_obj,h_pick_cmd())', ['C13', 'C16', 'C17', 'C03']),
     ('cat_is_unsolicited_event_buffered', 'cat_is_unsolicited_event_buffered(&h_obj,h_pick_cmd(),(cat_cmd_type)nondet_int())', ['C13', 'C03']),
     ('cat_init', 'cat_init(&h_obj,&h_desc,&h_io,NB()?&h_mutex:NULL)', ['C01', 'C11', 'C13', 'C14', 'C15', 'C18', 'C20', 'C03']),
+    ('cat_search_command_by_name', 'cat_search_command_by_name(&h_obj,h_names[nondet_size()%H_NC])', ['C03']),
+    ('cat_search_command_group_by_name', 'cat_search_command_group_by_name(&h_obj,h_names[nondet_size()%H_NC])', ['C03']),
+    ('cat_search_variable_by_name', 'cat_search_variable_by_name(&h_obj,h_pick_cmd(),h_names[nondet_size()%H_NC])', ['C03']),
     ('cat_get_processed_command', 'cat_get_processed_command(&h_obj,(cat_fsm_type)nondet_int())', ['C13', 'C03']),
 ]
 
@@ -185,10 +189,14 @@ def jobs(tier):
         if 'C13' in props:
             J.append(API(fn, call, props, ring=8, tiers=('thorough',)))
     for st in AT_STATES:
+        J.append(L1('at', st, 'sh17', tiers=('thorough',)))
+    for st in UN_STATES:
+        J.append(L1('un', st, 'sh17', tiers=('thorough',)))
+    for st in AT_STATES:
         if st not in ('READ_LOOP', 'TEST_LOOP', 'FORMAT_READ_ARGS', 'PARSE_COMMAND_ARGS'):
             J.append(L1('at', st, 'sep8', tiers=('thorough',)))
     for fn, call, props in API_FUNCS:
-        for ring in (1, 2, 3):
+        for ring in ((1, 2, 3) if props != ['C03'] else (1,)):
             J.append(API(fn, call, props, ring=ring))
             if 'C17' in props:
                 J.append(API(fn, call, props, ring=ring, lockrule=True))
